@@ -4,6 +4,7 @@ package pheap
 
 import (
 	"fmt"
+	"math"
 	"sort"
 
 	"github.com/creachadair/mds/heapq"
@@ -32,8 +33,17 @@ func asc(a, b Elem) int {
 func desc(a, b Elem) int { return asc(b, a) }
 
 // Comparators that return magnitudes (only the sign is promised to matter).
-func ascMag(a, b Elem) int  { return (a.V - b.V) * 7 }
-func descMag(a, b Elem) int { return (b.V - a.V) * 7 }
+func ascMag(a, b Elem) int {
+	d := a.V - b.V
+	if d != 0 && (a.V+b.V)%2 == 0 { // for half of the pairs: the extreme values of int
+		if d < 0 {
+			return math.MinInt
+		}
+		return math.MaxInt
+	}
+	return d * 7
+}
+func descMag(a, b Elem) int { return ascMag(b, a) }
 
 // HOp is one step of a heap history.
 type HOp struct {
@@ -79,7 +89,7 @@ type heapRun struct {
 	q        *heapq.Queue[Elem]
 	cmp      func(a, b Elem) int
 	descNow  bool
-	custom   bool // the current comparison is one of the custom orders of "reorderTo"
+	custom   bool         // the current comparison is one of the custom orders of "reorderTo"
 	held     map[int]Elem // by ID
 	nextID   int
 	step     int
